@@ -328,9 +328,10 @@ pub fn eot_recv_tape(r: &mut impl RngCore) -> EotRecvTape {
         fn fill_bytes(&mut self, d: &mut [u8]) { self.0.fill_bytes(d) }
         fn try_fill_bytes(&mut self, d: &mut [u8]) -> Result<(), rand::Error> { self.0.try_fill_bytes(d) }
     }
+    impl<'a, R: RngCore> rand::CryptoRng for W<'a, R> {}
     let mut w = W(r);
     let bits: [u8; 32] = w.gen();
-    let tas: Vec<Scalar> = (0..256).map(|_| Scalar::random(&mut w)).collect();
+    let tas: Vec<Scalar> = (0..256).map(|_| *k256::NonZeroScalar::random(&mut w)).collect();
     let ros: Vec<ProjectivePoint> = (0..256).map(|_| ProjectivePoint::random(&mut w)).collect();
     EotRecvTape { bits, tas, ros }
 }
